@@ -742,7 +742,14 @@ def _dispatch(shard):
     return {"single": shard_singles, "pair": shard_pairs, "triple": shard_triples}[shard[0]](shard)
 
 
+def _det(stmt):
+    p = new_part()
+    run_case([stmt], set(), INITS[0], p)
+    return (p["evals"], sorted(p["counters"].items()), [(v["fingerprint"], v["case"]) for v in p["violations"]])
+
+
 def run(ctx):
+    ctx.determinism("single statements", _det, pool_reduced())
     n = len(pool_singles())
     stride = 256
     shards: List[Any] = [("single", lo, stride) for lo in range(stride)]
